@@ -77,6 +77,8 @@ def shard_main(args):
     except Exception:
         res['ok'] = False
         res['error'] = traceback.format_exc()
+    if not ctx.samples:
+        ctx.samples = list(ctx.fallback_samples)
     for k in ('evaluations', 'nontrivial', 'classes', 'samples', 'violations', 'known_hits', 'excluded',
               'refusals', 'probes', 'notes', 'budget_exhausted', 'exhaustive_parts'):
         res[k] = getattr(ctx, k)
@@ -251,9 +253,14 @@ def parent_main(args):
         'wall_s': round(wall, 2),
         'violations': len(violations),
     }
+    # evidence describes /repo itself: runs against another tree (sensitivity runs with VERIF_REPO) write elsewhere
+    ev_dir = os.path.join(env.VERIF_DIR, 'evidence')
+    if os.path.realpath(env.REPO_DIR) != os.path.realpath('/repo'):
+        ev_dir = os.path.join(env.WORK_ROOT, 'evidence-other-tree')
+        evidence['coverage']['notes']['tree'] = env.REPO_DIR
     if rc != 2:
-        os.makedirs(os.path.join(env.VERIF_DIR, 'evidence'), exist_ok=True)
-        with open(os.path.join(env.VERIF_DIR, 'evidence', prop + '.json'), 'w') as f:
+        os.makedirs(ev_dir, exist_ok=True)
+        with open(os.path.join(ev_dir, prop + '.json'), 'w') as f:
             json.dump(evidence, f, indent=1, sort_keys=False, default=str)
     import shutil
     if rc != 2 or not os.environ.get('VERIF_KEEP_WORK'):
